@@ -43,7 +43,7 @@ type Case struct {
 	Phase string     `json:"phase"` // store | retrieve
 	Tree  *tree.Node `json:"tree"`  // contents of the target's output directory
 	Decl  string     `json:"decl"`  // top: root entries are the outputs; leaf: every leaf path is an output
-	Fault string     `json:"fault"` // none | output-missing | file-unreadable | dir-unreadable | put-cut | command-fails | body-aborted | body-short | output-cut-exit1 | output-cut-exit0
+	Fault string     `json:"fault"` // none | output-missing | file-unreadable | dir-unreadable | put-cut | command-fails | entry-vanishes-mid-walk | body-aborted | body-short | output-cut-exit1 | output-cut-exit0
 	Pos   string     `json:"pos,omitempty"`
 	Off   int        `json:"off,omitempty"`
 	Got   *tree.Node `json:"got,omitempty"`
@@ -313,6 +313,11 @@ func runCase(c Case) (class, detail string, got *tree.Node) {
 		case "command-fails":
 			storeCmd = fmt.Sprintf("head -c %d > /dev/null; exit 1", c.Off)
 			store()
+		case "entry-vanishes-mid-walk":
+			// the store command takes c.Off bytes (the archiver is then inside an earlier, larger file and blocked on the
+			// pipe), removes an entry of an output directory that has been listed but not yet archived, then takes the rest
+			storeCmd = fmt.Sprintf("head -c %d > %s; rm -f %s; cat >> %s && mv %s %s", c.Off, sq(kf+".tmp"), sq(p), sq(kf+".tmp"), sq(kf+".tmp"), sq(kf))
+			store()
 		default:
 			lib.Fatal("unknown store fault %q", c.Fault)
 		}
@@ -357,7 +362,8 @@ func runCase(c Case) (class, detail string, got *tree.Node) {
 		if d := coarse(want, got); d != "" {
 			what := "after a Store during which " + map[string]string{"none": "nothing failed", "output-missing": "the declared output " + c.Pos + " did not exist",
 				"file-unreadable": "the file " + c.Pos + " could not be opened (EACCES)", "dir-unreadable": "the directory " + c.Pos + " could not be read (EACCES)",
-				"put-cut": fmt.Sprintf("the PUT connection was cut after %d bytes", c.Off), "command-fails": fmt.Sprintf("the store command exited 1 after reading %d bytes", c.Off)}[c.Fault]
+				"put-cut": fmt.Sprintf("the PUT connection was cut after %d bytes", c.Off), "command-fails": fmt.Sprintf("the store command exited 1 after reading %d bytes", c.Off),
+				"entry-vanishes-mid-walk": "the entry " + c.Pos + " of an output directory disappeared after the directory had been listed (while an earlier file was being archived)"}[c.Fault]
 			if c.Fault == "none" {
 				pfx = c.Cache + "cache:faultless:"
 			}
@@ -617,6 +623,11 @@ func main() {
 			}
 		}
 	}
+	// an entry of an output directory disappears while the store is archiving an earlier, larger file of that directory
+	// (only an entry of a directory that has ALREADY been listed: one that disappears before its directory is read was
+	// simply not there when the store looked, which is not a failed store)
+	run(Case{Cache: "cmd", Phase: "store", Tree: d(m{"d": d(m{"a": f("@1000000z1"), "z": f("x")})}), Decl: "top", Fault: "entry-vanishes-mid-walk", Pos: "d/z", Off: 200000})
+	run(Case{Cache: "cmd", Phase: "store", Tree: d(m{"d": d(m{"a": f("@1000000z1"), "m": f("y"), "z": f("x")})}), Decl: "top", Fault: "entry-vanishes-mid-walk", Pos: "d/m", Off: 200000})
 	for i, t := range cmdTrees {
 		for _, decl := range decls(t) {
 			storeFaults("cmd", t, decl)
